@@ -59,7 +59,7 @@ var DecisionSpecs = []decisionSpec{
 
 // strategiesWithoutTable: base strategies whose decision is stateful or hand-written (no finite table over comparisons of indicator values).
 var strategiesWithoutTable = map[string]string{
-	"momentum.TripleRsiStrategy": "decision depends on a ring of past RSI values inside a loop (stateful closure); roles and alignment are still checked",
+	"momentum.TripleRsiStrategy":  "decision depends on a ring of past RSI values inside a loop (stateful closure); roles and alignment are still checked",
 	"strategy.BuyAndHoldStrategy": "hand-written stage: Buy on the first snapshot, Hold afterwards (checked structurally)",
 }
 
@@ -67,7 +67,7 @@ var strategiesWithoutTable = map[string]string{
 func CheckC06(c *Ctx) {
 	run := c.Run
 	run.Technique = "value-term extraction over the stage graph (sources as field projections of the snapshots, sub-indicators as uninterpreted operators, stateless closures inlined as expressions) + role typing of every indicator argument + anchor alignment of decision operands + semantic comparison of each decision closure with its documented rule on all strict sign vectors of the compared quantities"
-	run.Explanation = "For every base strategy the action stream's value term is derived from the current source: which snapshot field (read from the field the extractor's closure selects, not from its name) reaches which parameter of which indicator, and the decision closure as a nested conditional over comparisons. Decided: (a) every argument bound to a role-named parameter of an indicator's Compute (high(s), low(s), closing(s), opening(s), volume(s)) is exactly that price field; (b) the operands of every decision zip refer to the same snapshot position except the two documented previous-vs-current cross-over detectors; (c) the decision closure equals the documented rule (table of 30 strategies) as a function of the signs of the compared quantities — evaluated on every strict sign vector, so branch order, if/switch style or algebraically equivalent rewrites do not matter, while a flipped comparison, a changed threshold field, a different indicator output or price field does. Positions where compared quantities are equal are exempt, as the property states. Whether an indicator's values are right is C01's concern."
+	run.Explanation = "For every base strategy the action stream's value term is derived from the current source: which snapshot field (read from the field the extractor's closure selects, not from its name) reaches which parameter of which indicator, and the decision closure as a nested conditional over comparisons. Decided: (a) every argument bound to a role-named parameter of an indicator's Compute (high(s), low(s), closing(s), opening(s), volume(s)) is exactly that price field; (b) the operands of every decision zip refer to the same snapshot position except the two documented previous-vs-current cross-over detectors; (c) the decision closure equals the documented rule (table of 30 strategies) as a function of the signs of the compared quantities — evaluated on every strict sign vector, so branch order, if/switch style or algebraically equivalent rewrites do not matter, while a flipped comparison, a changed threshold field, a different indicator output or price field does. Where an indicator value can be undefined (its documented composition divides by a quantity that can be zero: MFI, RSI, %K, CMF, …) the vectors in which every comparison with that value is unordered (false, as IEEE comparisons with NaN are) are evaluated too: the documented rule then gives Hold. Positions where compared quantities are equal are exempt, as the property states. Whether an indicator's values are right is C01's concern."
 	run.Trusted = []string{"go/types", "decision-rule table rules.DecisionSpecs (from the types' doc comments)", "role vocabulary of parameter names (DESIGN appendix D)", "exact rational-function algebra (internal/sym)"}
 	specs := map[string]decisionSpec{}
 	for _, s := range DecisionSpecs {
@@ -210,15 +210,37 @@ func (c *Ctx) compareDecision(r *shape.Result, fi *load.FuncInfo, term sym.Expr,
 	}
 	bad := 0
 	total := 0
+	badUndef, totalUndef := 0, 0
 	var firstMsg string
-	for mask := 0; mask < 1<<len(ks); mask++ {
+	nan := map[string]bool{}
+	c.nanKeys(term, nan)
+	for _, rr := range rules {
+		c.nanKeys(rr.cond, nan)
+	}
+	passes := 1
+	if len(nan) > 0 {
+		passes = 2
+		run.Count("decisions_with_undefined_values", 1)
+	}
+	for mask := 0; mask < passes<<len(ks); mask++ {
 		sg := map[string]int{}
+		undefinedPass := mask>>len(ks) == 1
 		for i, k := range ks {
 			if mask&(1<<i) != 0 {
 				sg[k] = 1
 			} else {
 				sg[k] = -1
 			}
+			if undefinedPass && nan[k] {
+				if sg[k] > 0 {
+					sg = nil // one representative per assignment of the other keys
+					break
+				}
+				sg[k] = unordered
+			}
+		}
+		if sg == nil {
+			continue
 		}
 		want := "Hold"
 		fired := 0
@@ -236,6 +258,9 @@ func (c *Ctx) compareDecision(r *shape.Result, fi *load.FuncInfo, term sym.Expr,
 		}
 		got, ok := evalDecision(term, sg)
 		total++
+		if undefinedPass {
+			totalUndef++
+		}
 		run.Count("sign_vectors", 1)
 		if !ok {
 			run.Oblige(false)
@@ -245,12 +270,19 @@ func (c *Ctx) compareDecision(r *shape.Result, fi *load.FuncInfo, term sym.Expr,
 		}
 		if got != want {
 			bad++
+			if undefinedPass {
+				badUndef++
+			}
 			if firstMsg == "" {
 				var desc []string
 				for _, k := range ks {
 					s := "<"
 					if sg[k] > 0 {
 						s = ">"
+					}
+					if sg[k] == unordered {
+						desc = append(desc, short(k, 70)+" is undefined (NaN: a division by zero inside the indicator)")
+						continue
 					}
 					desc = append(desc, short(k, 70)+" "+s+" 0")
 				}
@@ -261,7 +293,11 @@ func (c *Ctx) compareDecision(r *shape.Result, fi *load.FuncInfo, term sym.Expr,
 	run.Oblige(bad == 0)
 	run.Sample(map[string]string{"obligation": "decision of " + sp.Type + " = documented rule on " + fmt.Sprint(total) + " sign vectors", "rule": fmt.Sprint(sp.Rules), "verdict": fmt.Sprint(bad == 0)})
 	if bad > 0 {
-		run.Violate(report.Finding{Rule: "decision-rule", Site: site, Detail: fmt.Sprintf("%d of %d sign vectors differ", bad, total), Pos: pos,
+		detail := fmt.Sprintf("%d of %d sign vectors differ", bad-badUndef, total-totalUndef)
+		if bad == badUndef {
+			detail = fmt.Sprintf("%d of %d vectors with an undefined indicator value differ", badUndef, totalUndef)
+		}
+		run.Violate(report.Finding{Rule: "decision-rule", Site: site, Detail: detail, Pos: pos,
 			Message: fmt.Sprintf("%s does not apply its documented rule (%s): %s", sp.Type, sp.Doc, firstMsg)})
 	}
 }
